@@ -32,3 +32,22 @@ TEXT["C07"] = dict(
     note="Atomicity of writeProbe under resultsMu is assumed by the transition system (C14 supports it). Go scheduler not modelled.",
     technique="Coq proof (invariant over all interleavings of a transition system + fold characterisation) + differential run of the real parallel engine under synctest",
 )
+
+TEXT["C15"] = dict(
+    text="Coq theorems over ALL outcome vectors and ALL completion instants (every completion order): the accumulator keeps a permutation of the successful runs, exactly one RTT sample per probe, "
+         "a permutation of all failures; a result exists iff everything succeeded and then has exactly q runs and e samples; the public-IP outcome never changes the verdict or the rest of the result. "
+         "Correspondence: real RunTraceroute under synctest with scripted outcomes vs the model, plus the all-or-error predicate (incl. errors.Is exposure of every injected failure) on the implementation's output.",
+    note="Model of runTracerouteMulti is hand-written (tie B). Completion order is the sort of virtual completion instants; mutex atomicity assumed (C14).",
+    technique="Coq proof (Permutation invariance of the accumulator over all completion orders) + differential run of the real RunTraceroute under synctest")
+TEXT["C16"] = dict(
+    text="Coq theorems over exact values: reachable iff address; 1 <= min <= avg <= max <= longest run for hop counts and each count within its run; sent/received/loss; min <= avg <= max with min,max members; "
+         "0 <= jitter <= max-min; permutation invariance of the order-insensitive statistics; distinctness of fresh identifiers; struct tags regenerated from source = published contract (reflexivity). "
+         "Correspondence: Normalize()+JSON of the real code vs the model on generated documents; the self-consistency predicate, key sets and a decode/re-encode round trip evaluated on the implementation's output.",
+    note="binary64 rounding: statements are over exact rationals; the correspondence accepts 1e-9 relative error (DESIGN 7, C16). encoding/json, IP text codec, uuid modelled only.",
+    technique="Coq proof over exact arithmetic + struct tags regenerated from source (translator) + differential run through the real Normalize/JSON")
+TEXT["C17"] = dict(
+    text="Coq theorems: the private test equals membership of 10/8, 172.16/12, 192.168/16 (incl. IPv4-mapped) and fc00::/7 for all byte values; redaction keeps count, order and TTLs, leaves no private address, "
+         "blanks every derived field of a private hop, leaves other hops untouched, and runs after enrichment and normalisation. Correspondence: the real RunTraceroute with skip-private on block-boundary addresses, "
+         "with and without reverse DNS, observed in the JSON; the redaction predicate evaluated against the scripted network truth.",
+    note="net.IP.IsPrivate / To4 are modelled (validated by the correspondence on every block boundary). HTTP handler query parsing is covered by C19's lab.",
+    technique="Coq proof (finite sweep over byte values lifted to all addresses + list induction) + differential run of the real pipeline")
